@@ -1,5 +1,5 @@
 (* C15 - rate limiters and circuit breaker never admit more than configured. Statements only. *)
-From Cashews Require Import Base.Prelude Spec.TTLMap Model.Rate Proofs.RateProofs.
+From Cashews Require Import Base.Prelude Spec.TTLMap Model.Rate Proofs.RateProofs Proofs.RateConcProofs.
 Open Scope Z_scope.
 
 (* rate_limit: while the counter lives (an epoch) runs = min(calls, limit): a call runs only if fewer than `limit`
@@ -56,9 +56,47 @@ Theorem C15_breaker_step : forall k rate period ttl mc m tl tlf T F now o,
   end.
 Proof. exact breaker_step. Qed.
 Print Assumptions C15_breaker_step.
+(* the same for a call whose function takes time: it starts at `now` (open check, counted in the totals window ending at `now`)
+   and its outcome is known at `fin` >= now (the failure is stamped, the rule evaluated and the breaker opened at `fin`) *)
+Theorem C15_breaker_step_slow_call : forall k rate period ttl mc m tl tlf T F now fin o,
+  0 < period -> 0 < ttl -> tl < now -> now <= fin -> tlf < fin ->
+  XInv (total_key k) period m tl T -> XInv (fails_key k) period m tlf F ->
+  cnt (closedw now period) T < 9999 -> cnt (closedw fin period) F < 9999 ->
+  let '(m', res, tripped) := breaker_call_at m now fin k rate period ttl mc o in
+  match s_look m now (open_key k) with
+  | Some _ => res = BOpen /\ m' = m /\ tripped = false
+  | None =>
+      res = BRan o /\ XInv (total_key k) period m' now (now :: T) /\
+      (match o with
+       | BFailListed => XInv (fails_key k) period m' fin (fin :: F)
+       | _ => XInv (fails_key k) period m' tlf F
+       end) /\
+      (exists total fails,
+          cnt (strictw now period) T + 1 <= total <= cnt (closedw now period) T + 1 /\
+          (o = BFailListed -> cnt (strictw fin period) F + 1 <= fails <= cnt (closedw fin period) F + 1) /\
+          (tripped = true <-> o = BFailListed /\ mc <= total /\ rate * total <= fails * 100)) /\
+      (tripped = true -> s_look m' fin (open_key k) = Some (Some (fin + ttl), VInt 1))
+  end.
+Proof. exact breaker_step_at. Qed.
+Print Assumptions C15_breaker_step_slow_call.
 Theorem C15_window_counts_coincide : forall now period H, ~ In (now - period) H -> cnt (strictw now period) H = cnt (closedw now period) H.
 Proof. exact cnt_strict_closed. Qed.
 Print Assumptions C15_window_counts_coincide.
+
+(* rate_limit under concurrent callers, at backend-command granularity: for every time-ordered sequence of the incr / expire
+   commands of any number of calls, in whatever order the backend executes them (a ban-arming expire may land after other
+   calls' commands, after any delay, even in the counter's next life), every admitted call was admitted with fewer than
+   `limit` calls admitted before it since the counter was created (`rate_hist` states this for each command of the history) *)
+Theorem C15_rate_concurrent : forall k limit period ttl, 0 < period -> 0 < ttl -> 0 <= limit ->
+  forall h m t0 runs, rmono t0 h -> RInv k limit m t0 runs -> rate_hist k limit period ttl m runs h.
+Proof. exact rate_conc. Qed.
+Print Assumptions C15_rate_concurrent.
+(* non-vacuity: three calls at one instant (limit 2), the third one's expire delayed past a fourth call and past the lapse *)
+Example C15_rate_concurrent_example :
+  let h := [(0, RIncr); (0, RIncr); (0, RIncr); (3, RIncr); (20, RExpire); (21, RIncr); (21, RIncr); (21, RIncr); (21, RExpire); (40, RIncr)] in
+  rmono 0 h /\ rate_cmds empty "k"%string 2 16 32 h =
+    [Some true; Some true; Some false; Some false; None; Some true; Some true; Some false; None; Some false].
+Proof. split; [cbn; lia|vm_compute; reflexivity]. Qed.
 
 Example C15_example :
   (let '(m1, a) := rate_call empty 0 "k"%string 1 16 32 in let '(m2, b) := rate_call m1 1 "k"%string 1 16 32 in
